@@ -180,6 +180,7 @@ def mc(module, cfg, wd, expect_ok=True, need_actions=(), workers=None, timeout=1
                   extra=(["-coverage", "1"] if need_actions else []) + (extra or []), timeout=timeout, xmx=xmx)
     st = tlc_stats(out)
     viol = re.findall(r"Error: (Invariant \w+ is violated|Action property \w+ is violated|Temporal properties were violated|Deadlock reached)", out)
+    viol += re.findall(r"(The first argument of Assert evaluated to FALSE)", out)
     bad = tlc_failed(rc, out)
     if st is None or (bad and not viol):
         raise ToolError("TLC failed on %s/%s: %s\n%s" % (module, cfg, bad, tlc_error_text(out)))
